@@ -143,6 +143,8 @@ func c07Run(c *rt.C, src map[string]string, id string, wantAccept bool, class st
 				sig := "accept/" + id + "/" + errSig(err)
 				if class == "random-valid" {
 					sig = "accept/random/" + errSig(err)
+				} else if class == "random-ruled" {
+					sig = "accept/ruled/" + errSig(err)
 				}
 				d := det()
 				d["error"] = err.Error()
@@ -277,6 +279,22 @@ func runC07(r *rt.Runner) {
 			g := &j5Gen{rng: c.Rand()}
 			bundle := g.randomBundle()
 			c07Run(c, bundle.sources(), fmt.Sprintf("random:%d", b), true, "random-valid")
+		})
+	}
+	// --- random combinations of admissible rules on every field type (the generator C04 and C12 use) ---------
+	for b := 0; b < r.Scale(300, 8000); b++ {
+		r.Do(fmt.Sprintf("ruled/%d", b), func(c *rt.C) {
+			g := &j5Gen{rng: c.Rand()}
+			var fields []*jF
+			for _, n := range g.pickNames(1 + g.rng.Intn(5)) {
+				f := fld(n, g.ruledType())
+				if g.rng.Intn(4) == 0 {
+					f.Req = true
+				}
+				fields = append(fields, f)
+			}
+			bundle := elemsBundle(&jElem{Decl: &jDecl{Kind: kObject, Name: "Ruled", Fields: fields}})
+			c07Run(c, bundle.sources(), fmt.Sprintf("ruled:%d", b), true, "random-ruled")
 		})
 	}
 	// --- (ii) semantic errors ------------------------------------------------------------------------------------
